@@ -4,6 +4,7 @@
   seeded.py add <prop> <worktree>     save patch.diff + demo + meta.json under /verif/seeded/<prop>-<n>/ after confirming that the
                                       demo fails with the change and passes without it and that the pinned suite still passes with it
   seeded.py run <name> [--tier quick] apply the patch to /repo, run ./check <prop>, undo the patch, record the verdict in meta.json
+  seeded.py scratch <name> [tier]     same verdict on a scratch copy of /repo (TL_ROOT / VERIF_OUT): /repo and /verif/evidence untouched
   seeded.py runall                    run every seeded change
 """
 import sys, os, json, subprocess, shutil, glob, time
@@ -45,6 +46,36 @@ def add(prop, wt):
     return d
 
 
+def run_scratch(name, tier='quick'):
+    """same verdict as run(), but on a scratch copy of /repo's working tree (TL_ROOT / VERIF_OUT), so that /repo, /verif/evidence and
+    /verif/replays are left alone and several changes can be evaluated at once; the scratch copy is removed afterwards"""
+    d = '%s/seeded/%s' % (V, name)
+    meta = json.load(open(d + '/meta.json'))
+    prop = meta['property']
+    root = '/tmp/seedrun/%s' % name
+    shutil.rmtree(root, ignore_errors=True); os.makedirs(root + '/repo')
+    sh('rsync -a --exclude .git --exclude __pycache__ /repo/ %s/repo/' % root)
+    rc, out = sh('patch -p1 -s < %s/patch.diff' % d, cwd=root + '/repo')
+    assert rc == 0, 'patch does not apply: ' + out
+    try:
+        t0 = time.time()
+        rc, out = sh('./check %s --tier %s' % (prop, tier), cwd=V, env=dict(ENV, TL_ROOT=root + '/repo', VERIF_OUT=root + '/out'), timeout=6000)
+        lines = [l for l in out.splitlines() if l.startswith('VIOLATION') or l.startswith(prop + ' ')]
+        replay = None
+        for l in lines:
+            if l.startswith('VIOLATION') and 'replay=' in l:
+                replay = l.split('replay=')[1].split()[0]
+        reason = json.load(open(replay)).get('reason') if replay and os.path.exists(replay) else None
+        meta.setdefault('checks', {})[tier] = {'exit': rc, 'lines': lines, 'reason': reason, 'wall_s': round(time.time() - t0, 1),
+                                                'caught': rc == 1 and any(l.startswith('VIOLATION') for l in lines),
+                                                'concrete': bool(lines) and not any('no-failing-input-found' in l for l in lines if l.startswith('VIOLATION')),
+                                                'how': 'scratch copy of /repo with the patch applied (TL_ROOT)'}
+    finally:
+        shutil.rmtree(root, ignore_errors=True)
+    json.dump(meta, open(d + '/meta.json', 'w'), indent=1)
+    print(name, json.dumps(meta['checks'][tier])[:400])
+
+
 def run(name, tier='quick'):
     d = '%s/seeded/%s' % (V, name)
     meta = json.load(open(d + '/meta.json'))
@@ -81,6 +112,8 @@ if __name__ == '__main__':
         add(sys.argv[2], sys.argv[3])
     elif sys.argv[1] == 'run':
         run(sys.argv[2], sys.argv[4] if len(sys.argv) > 4 else 'quick')
+    elif sys.argv[1] == 'scratch':
+        run_scratch(sys.argv[2], sys.argv[3] if len(sys.argv) > 3 else 'quick')
     elif sys.argv[1] == 'runall':
         for d in sorted(glob.glob(V + '/seeded/*/meta.json')):
             run(os.path.basename(os.path.dirname(d)), sys.argv[2] if len(sys.argv) > 2 else 'quick')
